@@ -22,7 +22,8 @@ def run(c):
     c.go2coq_sources = ["load.go"]
     c.rule = ("helper cases: a rules file of 1-3 groups (matcher named m/mt/q), each with 1-3 local helpers named f/g/h (so later groups "
               "redefine the names of earlier ones with other bodies and parameter lists), 0-6 params of type dsl.Var/string/int/dsl.Matcher in any "
-              "order (possibly named like a selected field or the matcher), bodies of 1-3 atoms with constants in every literal spelling "
+              "order (possibly named like a selected field or the matcher), bodies of 1-3 atoms out of 26 filter expressions (one- and two-variable, "
+              "matcher-level, custom filter function) with constants in every literal spelling "
               "(decimal, hex, legacy octal 0644, 0o, 0b, underscores; raw/concat/named/parenthesised/arith/float), nested calls of earlier "
               "helpers, rules between the definitions, arguments spelled as literals, parenthesised, or as named constants -- preferably ones "
               "spelled like a parameter of the called helper --, package-level variables, group-level constants that shadow package-level ones, "
@@ -171,6 +172,7 @@ def run(c):
                     1 for x in hs if pred(x) and (x.get("groups", 1) > 1 if fld is None else x.get(fld)))
         c.coverage["const_cases"] = c.coverage.get("const_cases", 0) + len(cases) - len(hs)
         c.coverage["model_vs_impl_cases"] = c.coverage.get("model_vs_impl_cases", 0) + len(verdict)
+        c.coverage["outside_model_cases"] = c.coverage.get("outside_model_cases", 0) + sum(1 for x in hs if x.get("outside_model"))
 
     if thorough:
         for k in range(3):
